@@ -173,7 +173,10 @@ def skeleton(f, after_async=False):
             continue
         if isinstance(n, ast.Call):
             last = callee_last(n)
-            if last in ('sendline', '_expect_prompt', 'append', 'kill', 'join'):
+            if last == '_expect_prompt':
+                ta = call_arg(n, 'timeout', 0)
+                ev.append('_expect_prompt(%s)' % (norm(ta) if ta is not None else 'default'))          # which timeout the wait is given is part of the event
+            elif last in ('sendline', 'append', 'kill', 'join'):
                 ev.append(last)
         elif isinstance(n, ast.Raise):
             ev.append('raise')
